@@ -84,6 +84,18 @@ def generate(rng: random.Random, tier: str):
         yield {"kind": "write", "wf": True, "store": "mem", "fmt": fmt, "pre": "fresh", "validate": True, "overwrite": False,
                "nids": {"dtype": "uint8", "shape": [0], "data": []}, "eids": {"dtype": "uint8", "shape": [0, 2], "data": []},
                "nprops": {"poly": {"values": {"vlen": []}, "missing": None}}, "eprops": {}, "md": {"directed": True}}
+    # the same for a graph with nodes but no edges and a var-length EDGE property
+    yield {"kind": "write", "wf": True, "store": "mem", "fmt": 2, "pre": "fresh", "validate": True, "overwrite": False,
+           "nids": {"dtype": "uint8", "shape": [2], "data": [4, 5]}, "eids": {"dtype": "uint8", "shape": [0, 2], "data": []},
+           "nprops": {}, "eprops": {"poly": {"values": {"vlen": []}, "missing": None}}, "md": {"directed": True}}
+    # a var-length property whose elements are float16 (float16 is a supported dtype: "upcast to float32")
+    for fmt in (2, 3):
+        for miss in (None, {"dtype": "bool", "shape": [2], "data": [False, True]}):
+            yield {"kind": "write", "wf": True, "store": "mem", "fmt": fmt, "pre": "fresh", "validate": True, "overwrite": False,
+                   "nids": {"dtype": "uint16", "shape": [2], "data": [7, 300]}, "eids": {"dtype": "uint16", "shape": [1, 2], "data": [7, 300]},
+                   "nprops": {"h": {"values": {"vlen": [{"dtype": "float16", "shape": [2], "data": [0.5, -1.5]},
+                                                         {"dtype": "float16", "shape": [1], "data": [2.0]}]}, "missing": miss}},
+                   "eprops": {}, "md": {"directed": False}}
     # one var-length property name shared by nodes and edges, different dtypes and shapes
     for fmt in (2, 3):
         for store in ("mem", "path"):
@@ -294,9 +306,11 @@ def oracle(c, o):
             return Failure(c, strip(o), f"property name {c['oddname']!r}: write raised {o['res'][1]} and the store afterwards reads {o['back'][0]}",
                            {"why": "oddname", "name": c["oddname"]})
         return None
+    has_vlen_f16 = any("vlen" in p["values"] and any(e["dtype"] == "float16" for e in p["values"]["vlen"])
+                       for ps in (c["nprops"], c["eprops"]) if ps for p in ps.values())
     if o["res"][0] != "ok":
         return Failure(c, strip(o), f"write_arrays raised {o['res'][1]} on a well-formed graph: {o['res'][2]}",
-                       {"why": "write-raises", "exc": o["res"][1], "empty_vlen": has_empty_vlen})
+                       {"why": "write-raises", "exc": o["res"][1], "empty_vlen": has_empty_vlen, "vlen_f16": has_vlen_f16})
     if o["back"][0] != "ok":
         return Failure(c, strip(o), f"read_to_memory raised {o['back'][1]} after a successful write: {o['back'][2]}",
                        {"why": "read-raises", "exc": o["back"][1]})
